@@ -4,7 +4,7 @@ PROP = dict(
          'lfrc:tl_dtor,tl_push,tl_pop,fl_push,add_nodes,add_nodes_int', 'stampit_guard:dtor', 'rlist:orphan_dtor,ol_add,ol_adopt'],     # what an exiting thread hands over: lfrc's thread-local free list, stamp-it's local retire list, orphans
   level='other',
   strict_obligations=True,
-  obligations=['he.initialize.all_free', 'lfrc.freelist.conserve', 'lfrc.freelist.push_links', 'stamp.dtor.hands_over_all', 'stamp.conserve', 'rlist.orphans.add.commit', 'rlist.orphans.adopt.atomic', 'rlist.orphan.dtor.deletes_all', 'rlist.conserve',
+  obligations=['he.initialize.all_free', 'lfrc.freelist.conserve', 'lfrc.freelist.push_links', 'stamp.dtor.hands_over_all', 'rlist.orphan.dtor.deletes_all', 'rlist.conserve',
                'tbl.*', 'hpscan.active_hps.balanced', 'hpscan.dtor.releases_record', 'hpscan.skips_inactive', 'hpscan.dtor.hands_over_all',
                'ebr.adopt.reinit', 'ebr.dtor.releases_record', 'ebr.dtor.hands_over_all', 'ebr.scan.exact', 'ebr.scan.prefix_valid', 'ebr.advance.after_scan', 'ebr.orphans.slot',
                'qsbr.adopt.reinit', 'qsbr.advance.all_quiescent', 'qsbr.dtor.hands_over_all', 'qsbr.dtor.releases_record', 'qsbr.orphans.target_epoch',
